@@ -473,6 +473,9 @@ func runC09(p *Prog, r *Report, tier string) {
 			"the encoder's error (value cannot be encoded for its element: wrong address family, wrong fixed length, too long) is not propagated: the record is sent with a silently altered (zero) field and SendSet reports success", true)
 	}
 	checkEncoderCopies(p, r, enc)
+	// what the encoder writes per data type (C15's table agreement, encoder side): a value that the element type allows
+	// must not be refused or written in another form
+	codecAgreement(p, r, "R-ERR.codec", "enc")
 }
 
 func writesTemplatesMap(f *ssa.Function) bool {
